@@ -26,7 +26,8 @@ use super::{
         parse_arithmetic_operand, parse_binary_logic_operand, parse_comparison_operand,
         parse_frame_attribute, parse_frame_identifier, parse_gate_modifier, parse_matrix,
         parse_memory_reference, parse_pauli_terms, parse_permutation, parse_qubit, parse_sharing,
-        parse_vector, parse_waveform_invocation, parse_waveform_name,
+        parse_signed_immediate_value, parse_vector, parse_waveform_invocation,
+        parse_waveform_name,
     },
     expression::parse_expression,
     InternalParseError, ParserErrorKind, ParserInput,
@@ -149,7 +150,7 @@ fn parse_call_argument<'a>(
         ),
         map(token!(Identifier(v)), UnresolvedCallArgument::Identifier),
         map(
-            super::expression::parse_immediate_value,
+            parse_signed_immediate_value,
             UnresolvedCallArgument::Immediate,
         ),
     ))(input)
